@@ -179,11 +179,11 @@ class Runner:
                     ok_so_far = False
                     break
             op = rng.choices(["get", "set", "getslice", "setslice", "del", "delslice", "clear", "iter", "in", "len",
-                              "reopen", "closed_ops", "setslice_gen_fail"],
-                             [22, 22, 9, 12, 5, 4, 1, 4, 5, 3, 7, 2, 4])[0]
+                              "reopen", "closed_ops", "setslice_gen_fail", "iter_live", "with_failing"],
+                             [22, 22, 9, 12, 5, 4, 1, 4, 5, 3, 7, 2, 4, 3, 2])[0]
             try:
                 ok_so_far = self.apply(op, arr, model, rng, path) and ok_so_far
-                if op == "reopen" or op == "closed_ops":
+                if op in ("reopen", "closed_ops", "with_failing"):
                     arr = self.arr  # replaced
             except Fail:
                 ok_so_far = False
@@ -432,6 +432,71 @@ class Runner:
             self.trace.append(["len"])
             if len(arr) != n or arr.item_size != isz or arr.local_path != path:
                 self.viol("array:len-or-properties", f"len={len(arr)} item_size={arr.item_size}")
+                raise Fail()
+        elif op == "iter_live":
+            # an iterator that is partly consumed while the array is written ahead of (and behind) its cursor: a list's
+            # iterator yields what is stored at the moment it gets there
+            k = rng.randint(0, n)
+            writes = [(rng.randrange(n), rng.randbytes(rng.randint(0, isz))) for _ in range(rng.randint(1, 3))]
+            self.trace.append(["iter_live", k, [[i, v.hex()] for i, v in writes]])
+            acc.count("op.iter_live")
+            try:
+                it, mit = iter(arr), iter(model.items)
+                got, want = [], []
+                for _ in range(k):
+                    got.append(next(it))
+                    want.append(next(mit))
+                for i, v in writes:
+                    arr[i] = v
+                    model.items[i] = model.pad(v)
+                got += list(it)
+                want += list(mit)
+            except Exception as e:
+                self.viol(f"array:iter-raised:{exc_site(e)}", f"{type(e).__name__}: {e}")
+                raise Fail()
+            if got != want:
+                self.viol("array:live-iterator-stale", f"an iterator consumed to position {k}, then {len(writes)} writes, "
+                                                       f"then the rest: yields differ from a list's iterator at positions "
+                                                       f"{[j for j, (a, b) in enumerate(zip(got, want)) if a != b][:4]}")
+                raise Fail()
+            if not self.full_compare(arr, model, "after-live-iteration"):
+                raise Fail()
+        elif op == "with_failing":
+            # the array used as a context manager; an operation fails inside the block: the block still closes the array
+            # (what was written before the failure is on disk, the object is closed)
+            i, v = rng.randrange(n), rng.randbytes(rng.randint(0, isz))
+            self.trace.append(["with_failing", i, v.hex()])
+            acc.count("op.with_failing")
+            try:
+                with arr as a2:
+                    a2[i] = v
+                    model.items[i] = model.pad(v)
+                    a2[n + 3]    # IndexError
+                self.viol("array:with-no-raise", "an out-of-range read inside a with block did not raise")
+                raise Fail()
+            except IndexError:
+                pass
+            except Fail:
+                raise
+            except Exception as e:
+                self.viol(f"array:with-raised:{exc_site(e)}", f"{type(e).__name__}: {e}")
+                raise Fail()
+            try:
+                arr[0]
+                still_open = True
+            except Exception:
+                still_open = False
+            try:
+                arr2 = self.SP.open(path)
+            except Exception as e:
+                self.viol(f"array:reopen-raised:{exc_site(e)}", f"{type(e).__name__}: {e}")
+                raise Fail()
+            self.arr = arr2
+            if still_open:
+                self.viol("array:with-block-left-open", "after a with block that ended in an exception the array object "
+                                                        "still accepts operations (it was not closed)")
+                raise Fail()
+            if not self.full_compare(arr2, model, "after-failing-with-block"):
                 raise Fail()
         elif op == "reopen":
             self.trace.append(["close+open"])
